@@ -576,12 +576,16 @@ class HGen:
             kind = rng.choice(["partial", "allRequired", "extend", "omit", "pick", "omit", "pick"])
             st = {"op": "derive", "kind": kind, "source": cur, "name": self.fresh("D"), "names": [],
                   "via": rng.choice(["getitem", "getitem-named", "method"])}
+            if kind in ("omit", "pick") and rng.random() < 0.3:
+                # no class name given: Foo.omit(...) / Omit[Foo, names] (the result must still be a NEW class)
+                st["via"] = rng.choice(["method-default", "getitem-default"])
             if kind in ("omit", "pick"):
                 k = rng.randint(0, len(cur_fields))
                 st["names"] = rng.sample(cur_fields, k) if cur_fields else []
                 r = rng.random()
                 if r < 0.12:
-                    st["names"] = st["names"] + [rng.choice(["nope", "zz", "A", ""])]
+                    # a name that is not a field: fresh, or one that IS an attribute / method / internal name of the class
+                    st["names"] = st["names"] + [rng.choice(NON_FIELD_NAMES)]
                     st["unknown"] = True
                 elif r < 0.2 and st["names"]:
                     st["names"] = st["names"] + [st["names"][0]]
@@ -840,6 +844,9 @@ def do_define(src, env):
     return cls
 
 
+NON_FIELD_NAMES = ["nope", "zz", "A", "", "omit", "pick", "shallow_clone_with_overrides", "get_all_fields_by_name",
+                   "_required", "_fields", "_field_by_name", "_constants", "__doc__", "__init__", "__signature__", "__dict__",
+                   "_ignore_none", "from_other_class", "hello", "plain"]
 NAMES_AS = ["tuple", "list", "set", "frozenset", "dict_keys", "genexpr", "iter", "filter", "map", "str",
             "genexpr", "iter", "tuple"]
 
@@ -887,6 +894,11 @@ def do_derive(st, env):
     if via == "method":
         return (src.omit if kind == "omit" else src.pick)(*names, class_name=name)
     op = Omit if kind == "omit" else Pick
+    if via in ("method-default", "getitem-default"):
+        cls = (src.omit if kind == "omit" else src.pick)(*names) if via == "method-default" else op[src, names]
+        if cls is not src:
+            cls.__name__ = name   # default name is '<Op><Source>'; renamed for the per-case registry only
+        return cls
     return op[src, names, name]
 
 
